@@ -66,8 +66,14 @@ def reduce_failure(w, text, indent, kind):
     return "".join(tokseq.ddmin(toks, lambda c: verdict(w, "".join(c), indent)[0] == kind, max_calls=400))
 
 
+GLUED_SPECS = re.compile(r"^\s*for [^\n]*?[A-Za-z0-9_](?:if|for) |^\s*for [^\n]*(?://|#)[^\n]*\b(?:if|for) ", re.M)
+
+
 def features(core, kind, det):
     f = []
+    if kind == "not-parsable" and isinstance(det, dict) and GLUED_SPECS.search(det.get("output", "")):
+        # decided on the output, before anything the input may contain besides (comments ...)
+        return "object-comprehension-specs-glued"
     if re.search(r"(//|#)[^\n]*\n?[\s,]*[)\]}]", core):
         f.append("line-comment-before-closing-bracket")
     elif re.search(r"(//|#)", core):
@@ -78,8 +84,6 @@ def features(core, kind, det):
         f.append("tailstrict-dropped")
     if "|||" in core:
         f.append("crlf-text-block" if "\r\n" in core else "text-block")
-    if not f and kind == "not-parsable" and isinstance(det, dict) and re.search(r"^\s*for [^\n]*[A-Za-z0-9_](?:if|for) ", det.get("output", ""), re.M):
-        f.append("object-comprehension-specs-glued")
     if re.search(r"\d\s*\.\s*[A-Za-z_]", core) and not f:
         f.append("field-access-on-number-literal")
     return "+".join(f) or "no-comment"
